@@ -110,6 +110,9 @@ func c13(r *Report) propMeta {
 	// quoted route fee = charged fee (C08)
 	r.Include("C08", "C08.R5")
 
+	r.Rule("C13.lint", "E8 module lint: no nondeterminism / process-local state in x/oracle")
+	r.ModuleLint("module-lint", "oracle", 20)
+
 	return propMeta{
 		Decided: []string{
 			"R1 feeCollector.Collect: every denom of the running total is compared with the limit before the single SendCoins(payer -> treasury, this fee); failing edge returns an error and reaches no transfer",
@@ -119,6 +122,7 @@ func c13(r *Report) propMeta {
 			"R5 escrow + signing creation reachable from end-block are under a conditional-commit boundary",
 			"R6 no bank/distribution keeper error is discarded in the x/ modules",
 			"R7 every KV-store Get/Has/Delete of x/oracle uses a key builder of x/oracle/types that some Set of the module also uses (a probe of an iteration prefix or of a sibling family is always-empty state)",
+			"lint: the determinism lint (incl. writes to memory held by long-lived objects) over everything reachable from the handlers and blockers of x/oracle",
 		},
 		Undecided: []string{"exactness at limit-1/limit/limit+1 per denom (Coins arithmetic)", "escrow conservation across retries and transitions (history)", "that Threshold at completion equals Threshold at request (store invariant)"},
 		Assume:    []string{"bank Send* conserve supply and are all-or-nothing per call", "msg handlers atomic; CacheContext isolation"},
